@@ -180,6 +180,7 @@ pub fn oracle_pass(cand: Pool, workers: usize, recheck_every: usize) -> (Pool, O
         }
     }
     st.kept = pool.entries.len();
+    pool.assign_text_ids();
     (pool, st)
 }
 
